@@ -390,14 +390,22 @@ def rules(ck, P):
             okv = False
             if len(gets) == 1 and len(ins) == 1:
                 g0, i0 = ir.strip(gets[0]["a"][0]), ir.strip(ins[0]["a"][0])
-                okk = g0.get("k") == "mcall" and g0.get("name") == "as_slice" and i0.get("k") == "mcall" and i0.get("name") == "into_vec" and ir.local_hid(g0["recv"]) == ir.local_hid(i0["recv"]) is not None
+                def whole(e):
+                    """local whose complete bytes e denotes (as_slice / into_vec / to_vec / as_ref chains), else None"""
+                    e = ir.strip(e)
+                    while e is not None and e.get("k") == "mcall" and e.get("name") in ("as_slice", "into_vec", "to_vec", "as_ref", "clone", "to_owned") and not e.get("a"):
+                        e = ir.strip(e["recv"])
+                    return ir.local_hid(e) if e is not None and e.get("k") == "path" else None
+                okk = whole(g0) is not None and whole(g0) == whole(i0)
                 # stored range is the one assigned to this tile's slot
                 rh = ir.local_hid(ins[0]["a"][1])
-                sets = [n for n in ir.walk_nodes(wb["body"]) if n.get("k") == "mcall" and n.get("name") == "set" and "tile_index" in ir.place_str(n["recv"])]
+                sets = [n for n in ir.walk_nodes(wb["body"]) if n.get("k") == "mcall" and n.get("name") == "set" and "TileIndex" in (n.get("q") or "")]
                 okv = rh is not None and any(ir.local_hid(s["a"][1]) == rh for s in sets)
             ck.check(key_ok and okk, "R-DEDUP", "key", "map is keyed by the complete payload bytes of the same blob (as_slice / into_vec)", "de-duplication key is not the complete payload of the tile", ir.loc(maps[0]))
             ck.check(okv, "R-DEDUP", "value", "the stored range is the one written into this tile's own index slot", "stored range is not the tile's own range", ir.loc(maps[0]))
-            scope_ok = ir.contains(wb["body"], lambda y: y.get("k") == "let" and y["pat"].get("k") == "bind" and y["pat"]["name"] == "offset0")
+            sbk = [n for n in ir.walk_nodes(wb["body"]) if n.get("k") == "mcall" and n.get("name") in ("shift_backward", "get_shifted_backward")]
+            bh_ = ir.local_hid(sbk[0]["a"][0]) if len(sbk) == 1 else None
+            scope_ok = bh_ is not None and ir.contains(wb["body"], lambda y: y.get("k") == "let" and y["pat"].get("k") == "bind" and y["pat"]["hid"] == bh_)
             ck.check(scope_ok, "R-DEDUP", "scope", "the map is created per block, in the function that takes the block's base offset (ranges are block-relative)",
                      "the map outlives a block although its ranges are block-relative", ir.loc(maps[0]))
     # ---------------- R-INDEX-FRESH: a block's tile index starts with every slot empty
